@@ -59,11 +59,11 @@ Theorem yaw_history_independent : forall y c t l,
     (l = l0 \/
      match l0 with
      | YOn c0 dur change _ =>
-         clamp0 t = QFin (ms_sec (yc_start_ms c0 + dur)) /\
+         Player_Proofs.qtime_eq (clamp0 t) (QFin (ms_sec (yc_start_ms c0 + dur))) /\
          exists r, decode_delta (yc_rest c0) = Some (dur, change, r) /\ ylanding_cursor l = ynext c0 dur change r
      | YEnd _ => False
      end).
-Proof. exact Yaw_Proofs.yaw_history_independent. Qed.
+Proof. exact Yaw_Proofs.yaw_history_independent'. Qed.
 Print Assumptions yaw_history_independent.
 
 Example yaw_example :
@@ -75,3 +75,4 @@ Example yaw_example :
   | _ => False
   end.
 Proof. exact Yaw_Proofs.yaw_example. Qed.
+Print Assumptions yaw_example.
